@@ -1,24 +1,78 @@
-"""developer tool: convert the hand-written mutant corpora (tools/corpus) into sa/selfval_seeds.json used by the thorough tier"""
-import json, pathlib, sys
+"""developer tool: (re)generate sa/selfval_seeds.json, the seed set of the thorough tier, from
+  - the hand-written mutant corpora (tools/corpus),
+  - the independently produced breaking changes stored under /verif/seeded (each registered for every property whose check reports it),
+  - the independently produced behaviour-preserving refactorings under tools/benign_patches (benign for every property).
+Patches are turned into text edits (module, old block, new block) by applying them to a throw-away export of /repo HEAD and
+diffing; a seed whose old block is not unique in the current module is dropped here (and would be n/a at run time)."""
+import difflib, json, pathlib, shutil, subprocess, sys, tempfile
 ROOT = pathlib.Path(__file__).resolve().parent.parent
 sys.path.insert(0, str(ROOT / "tools" / "corpus"))
 from corpus1 import M as M1
 from corpus2 import M as M2
 from benign import B
-try:
-    from corpus3 import M as M3
-except ImportError:
-    M3 = []
 NOT_BREAKING = {"m11_not_oserror": "silent on the repaired tree by design: the BaseException give-back covers the exit",
                 "m15_data_fresh_map": "shallow copy of the throttle map keeps the same throttle objects",
                 "m18_mkdir_no_typecheck": "the first mutation itself fails cleanly (same 451, tree unchanged)",
                 "m20_censor_short": "censor_after shorter than the prefix still hides the whole password"}
+
+
+def edits_of_patch(patch):
+    d = tempfile.mkdtemp(prefix="mkseed_", dir="/tmp")
+    try:
+        subprocess.run(f"git -C /repo archive HEAD src | tar -x -C {d}", shell=True, check=True)
+        before = {f.name: f.read_text() for f in pathlib.Path(d, "src/aioftp").glob("*.py")}
+        r = subprocess.run(["git", "apply", str(patch)], cwd=d, capture_output=True, text=True)
+        if r.returncode:
+            return None
+        after = {f.name: f.read_text() for f in pathlib.Path(d, "src/aioftp").glob("*.py")}
+    finally:
+        shutil.rmtree(d, ignore_errors=True)
+    edits = []
+    for mod in sorted(before):
+        if before[mod] == after.get(mod):
+            continue
+        a, b = before[mod].splitlines(keepends=True), after[mod].splitlines(keepends=True)
+        sm = difflib.SequenceMatcher(None, a, b, autojunk=False)
+        ops = [op for op in sm.get_opcodes() if op[0] != "equal"]
+        # one edit per module spanning from the first to the last changed line, widened until the old block is unique
+        i1, i2, j1, j2 = ops[0][1], ops[-1][2], ops[0][3], ops[-1][4]
+        for ctx in range(0, 12):
+            lo_a, hi_a = max(0, i1 - ctx), min(len(a), i2 + ctx)
+            lo_b, hi_b = max(0, j1 - ctx), min(len(b), j2 + ctx)
+            old, new = "".join(a[lo_a:hi_a]), "".join(b[lo_b:hi_b])
+            if old and before[mod].count(old) == 1:
+                edits.append({"module": mod, "old": old, "new": new})
+                break
+        else:
+            return None
+    return edits or None
+
+
 seeds = []
-for mid, prop, file, old, new, rule in list(M1) + list(M2) + list(M3):
+for mid, prop, file, old, new, rule in list(M1) + list(M2):
     benign = rule == "none" or "benign" in prop or mid in NOT_BREAKING
-    seeds.append({"id": mid, "property": prop[:3], "module": file.split("/")[-1], "old": old, "new": new, "expect": None if benign else rule,
-                  "benign": benign, "note": NOT_BREAKING.get(mid, "")})
+    seeds.append({"id": mid, "property": prop[:3], "edits": [{"module": file.split("/")[-1], "old": old, "new": new}], "expect": None if benign else rule,
+                  "benign": benign, "origin": "hand-written corpus", "note": NOT_BREAKING.get(mid, "")})
 for bid, file, old, new in B:
-    seeds.append({"id": bid, "property": "*", "module": file.split("/")[-1], "old": old, "new": new, "expect": None, "benign": True, "note": "behaviour-preserving refactoring"})
-(ROOT / "sa" / "selfval_seeds.json").write_text(json.dumps(seeds, indent=1) + "\n")
-print(len(seeds), "seeds;", sum(1 for s in seeds if s["benign"]), "benign")
+    seeds.append({"id": bid, "property": "*", "edits": [{"module": file.split("/")[-1], "old": old, "new": new}], "expect": None, "benign": True,
+                  "origin": "hand-written refactoring", "note": ""})
+n_sub = n_ben = 0
+for sd in sorted((ROOT / "seeded").iterdir()):
+    meta = json.loads((sd / "meta.json").read_text())
+    real = sorted(k for k, v in meta.get("checks_fired", {}).items() if not str(v[0]).startswith(("inconclusive", "error")))
+    if not real:
+        continue
+    ed = edits_of_patch(sd / "patch.diff")
+    if not ed:
+        continue
+    for pr in real:
+        seeds.append({"id": f"seeded/{sd.name}", "property": pr, "edits": ed, "expect": pr, "benign": False, "origin": "independent sub-agent change", "note": ""})
+    n_sub += 1
+for bd in sorted((ROOT / "tools" / "benign_patches").iterdir()):
+    ed = edits_of_patch(bd / "patch.diff")
+    if not ed:
+        continue
+    seeds.append({"id": f"refactoring/{bd.name}", "property": "*", "edits": ed, "expect": None, "benign": True, "origin": "independent sub-agent refactoring", "note": ""})
+    n_ben += 1
+(ROOT / "sa" / "selfval_seeds.json").write_text(json.dumps(seeds, indent=0) + "\n")
+print(len(seeds), "seed entries;", sum(1 for s in seeds if s["benign"]), "benign;", n_sub, "sub-agent changes;", n_ben, "sub-agent refactorings")
